@@ -223,6 +223,71 @@ theorem guardedNestedSrc_run :
        | none => false
      | _, _ => false) = true := by decide +kernel
 
+/-- **bare expression statements**: an operator expression used as a statement of a `when` body. The compiler
+emits its code and leaves the result temporary unused; the source semantics evaluates it for its nested binds
+(`(+ (:= Report.x 5) 2)` assigns `Report.x`) and its faults, and drops the value -/
+def bareStmtSrc : List Char :=
+  ("(def (Report (r 0) (x 1))) (when true (|| Flow.was_timeout false) (+ (:= Report.x 5) 2) (> Report.x 3) " ++
+   "(:= Report.r Report.x) (report))").toList
+
+/-- every primitive at 7, `Flow.was_timeout` a truth value (0) -/
+def bareEnv : Env := ⟨100, 0, ⟨List.replicate 14 7 ++ [0], 10, 20⟩⟩
+
+/-- non-vacuity on bare statements: `bareStmtSrc` is in the fragment `InOracle` (kernel-checked) … -/
+theorem bareStmtSrc_inOracle :
+    (match parseSource bareStmtSrc with
+     | some (_, evs) => InOracle evs
+     | none => false) = true := by decide +kernel
+
+/-- … it is not `Stratified`, and it meets every hypothesis of the theorem -/
+theorem bareStmtSrc_not_stratified :
+    (match parseSource bareStmtSrc with
+     | some (_, evs) => Stratified evs
+     | none => true) = false := by decide +kernel
+
+theorem bareStmtSrc_inTheorem : inTheorem 1 bareStmtSrc [] = true := by decide +kernel
+
+/-- the instance of `compiled_run_correct` on `bareStmtSrc`, by evaluation (kernel-checked), two invocations: the
+source semantics and the libccp machine running the compiled code (9 instructions: 2 DEF, the flag, one per bare
+statement plus the nested bind, the final bind) both report `r = 5`, `x = 5` -/
+theorem bareStmtSrc_run :
+    (match parseSource bareStmtSrc, compile 1 bareStmtSrc [] with
+     | some (ds, evs), .ok (bin, _) =>
+       match varDecls ds [] with
+       | some decls =>
+         decide (bin.instrs.length = 9) &&
+         decide ((Sem.run decls evs (Sem.initState decls 100) [bareEnv, bareEnv]).mapM ofSem =
+           some [.done (some 10) (some 20) (some [5, 5]), .done (some 10) (some 20) (some [5, 5])]) &&
+         decide ((vmRun (progOf 1 bin) (afterSwitch exEnv (progOf 1 bin) exConn 100) [bareEnv, bareEnv]).map ofVm =
+           [.done (some 10) (some 20) (some [5, 5]), .done (some 10) (some 20) (some [5, 5])])
+       | none => false
+     | _, _ => false) = true := by decide +kernel
+
+/-- a bare statement that faults: `(/ (:= Report.x 5) Ack.bytes_acked)` divides by zero when nothing was acked -/
+def bareFaultSrc : List Char :=
+  ("(def (Report (r 0) (x 1))) (when true (:= Report.r 9) (/ (:= Report.x 5) Ack.bytes_acked) " ++
+   "(:= Report.r (+ Report.r Report.x)) (report))").toList
+
+/-- `Ack.bytes_acked` = 0, every other primitive at 7 -/
+def bareZeroEnv : Env := ⟨100, 0, ⟨0 :: List.replicate 14 7, 10, 20⟩⟩
+
+theorem bareFaultSrc_inTheorem : inTheorem 1 bareFaultSrc [] = true := by decide +kernel
+
+/-- the fault of a bare statement aborts the invocation on both sides (kernel-checked): with `Ack.bytes_acked = 0`
+source semantics and compiled code both fault with libccp's division-by-zero code −92; with 7 both report
+`r = 9 + 5 = 14`, `x = 5` -/
+theorem bareFaultSrc_run :
+    (match parseSource bareFaultSrc, compile 1 bareFaultSrc [] with
+     | some (ds, evs), .ok (bin, _) =>
+       match varDecls ds [] with
+       | some decls =>
+         decide ((Sem.run decls evs (Sem.initState decls 100) [bareZeroEnv, exEnv]).mapM ofSem =
+           some [.fault (-92), .done (some 10) (some 20) (some [14, 5])]) &&
+         decide ((vmRun (progOf 1 bin) (afterSwitch exEnv (progOf 1 bin) exConn 100) [bareZeroEnv, exEnv]).map ofVm =
+           [.fault (-92), .done (some 10) (some 20) (some [14, 5])])
+       | none => false
+     | _, _ => false) = true := by decide +kernel
+
 /-- `(:= x (+ (:= x 1) (:= x 2)))`: the left operand's result register is the register of `x`, which the right
 operand assigns before the `+` instruction reads it -/
 def hazardSrc : List Char :=
